@@ -232,6 +232,65 @@ Decode(F, s, off) == RunIter(F, s, Dec0(off))
 
 WellFormed(F, s, off) == Decode(F, s, off).st = "done"
 
+\* ------------------------------------------------------------------ validating decoder
+\* The decoder machine run against a KNOWN expected output: n bytes, the i-th being In(i).
+\* `out` is not stored: the invariant out = <<In(1), ..., In(m)>> replaces it, so a literal must
+\* be In(m+1) and a back-reference is legal iff it reaches only into the m bytes produced, does
+\* not pass n, and copies exactly the next bytes of the expected output (CopyOK).  Same token
+\* layouts, same order of checks as DStep; terminal "done" iff Decode ends in Finish with
+\* out = the expected output and the header declares n (MC_LZ checks this equivalence on every
+\* stream variant).  Used for inputs too large to carry `out` through TLC (up to 16 MiB).
+V0(off) == [st |-> "hdr", pos |-> off + 1, m |-> 0, flags |-> 0, bits |-> 0, why |-> ""]
+
+CopyOK(In(_), m, len, dd) == \A j \in 1..len : In(m + j) = In(m - dd + ((j - 1) % dd) + 1)
+
+VStep(F, s, n, In(_), Copy(_, _, _), v) ==
+  LET z == Len(s)
+      p == v.pos
+      m == v.m
+  IN
+  IF v.st = "hdr" THEN
+       IF z - p + 1 < 4 THEN Stop(v, "err", "short")
+       ELSE IF s[p] # F.type THEN Stop(v, "err", "type")
+       ELSE IF U24(s, p + 1) # n THEN Stop(v, "err", "declared")
+       ELSE [v EXCEPT !.st = "run", !.pos = p + 4, !.why = "Header"]
+  ELSE IF m = n THEN
+       IF p = z + 1 THEN Stop(v, "done", "Finish") ELSE Stop(v, "err", "trail")
+  ELSE IF v.bits = 0 THEN
+       IF p > z THEN Stop(v, "err", "trunc")
+       ELSE [v EXCEPT !.flags = s[p], !.bits = 8, !.pos = p + 1, !.why = "LoadFlags"]
+  ELSE IF FlagBit(v) = 0 THEN
+       IF p > z THEN Stop(v, "err", "trunc")
+       ELSE IF s[p] # In(m + 1) THEN Stop(v, "err", "mismatch")
+       ELSE [v EXCEPT !.m = m + 1, !.bits = v.bits - 1, !.pos = p + 1, !.why = "Literal"]
+  ELSE IF p > z \/ p + RefSize(F, s, p) - 1 > z THEN Stop(v, "err", "trunc")
+  ELSE LET len == RefLen(F, s, p)
+           dd  == RefDisp(F, s, p)
+       IN IF len > RefLenMax(F, s, p) \/ len < F.MinLen \/ dd > F.W THEN Stop(v, "err", "range")
+          ELSE IF dd > m THEN Stop(v, "err", "before")
+          ELSE IF m + len > n THEN Stop(v, "err", "over")
+          ELSE IF ~Copy(m, len, dd) THEN Stop(v, "err", "mismatch")
+          ELSE [v EXCEPT !.m = m + len, !.bits = v.bits - 1, !.pos = p + RefSize(F, s, p),
+                         !.why = "BackRef"]
+
+VRun(F, s, off, n, In(_), Copy(_, _, _)) ==
+  SX!FoldLeft(LAMBDA acc, x : IF acc.st \in Terminal THEN acc ELSE VStep(F, s, n, In, Copy, acc),
+              V0(off), [i \in 1..(Len(s) + 3) |-> i])
+
+\* expected output given as a sequence
+VRunSeq(F, s, off, x) ==
+  VRun(F, s, off, Len(x), LAMBDA i : x[i], LAMBDA m, l, dd : CopyOK(LAMBDA i : x[i], m, l, dd))
+
+\* expected output = pattern pat repeated to n bytes.  A copy from a multiple of the period back
+\* reproduces the periodic continuation by construction (PeriodLemma, checked by MC_LZ at small
+\* scale), so it is not re-examined byte by byte.
+PIn(pat, i) == pat[((i - 1) % Len(pat)) + 1]
+PCopyOK(pat, m, len, dd) == dd % Len(pat) = 0 \/ CopyOK(LAMBDA i : PIn(pat, i), m, len, dd)
+VRunPeriodic(F, s, off, pat, n) ==
+  VRun(F, s, off, n, LAMBDA i : PIn(pat, i), LAMBDA m, l, dd : PCopyOK(pat, m, l, dd))
+PeriodLemma(pat, m, len, dd) ==
+  (dd >= 1 /\ dd <= m /\ dd % Len(pat) = 0) => CopyOK(LAMBDA i : PIn(pat, i), m, len, dd)
+
 \* ------------------------------------------------------------------ size bounds (C10)
 \* fmt = "lz10" | "lz13".  H header bytes, R bytes per reference at most, L longest match.
 HdrLen(fmt) == IF fmt = "lz10" THEN 4 ELSE 8
@@ -269,6 +328,10 @@ StreamOKd(fmt, x, s, d) ==
 CompressOKd(fmt, x, s, d) == StreamOKd(fmt, x, s, d) /\ SizeBound(fmt, Len(x), Len(s))
 CompressOK(fmt, x, s) ==
   Wrapped(fmt, s) /\ CompressOKd(fmt, x, s, Decode(CompFmt(fmt), s, CompOff(fmt)))
+
+\* C08 / C09 acceptance for an input given by its generator (pattern, n), n >= 1
+StreamOKPeriodic(fmt, pat, n, s) ==
+  Wrapped(fmt, s) /\ VRunPeriodic(CompFmt(fmt), s, CompOff(fmt), pat, n).st = "done"
 
 \* ------------------------------------------------------------------ greedy tokeniser (scaled model of mila's compressor)
 \* longest match at position i (0-based count of bytes consumed) with displacement dd, look-ahead look
